@@ -217,6 +217,13 @@ type syncState struct {
 	// a checkpoint. This prevents issue #997 where PASSIVE checkpoints
 	// trigger a feedback loop because stale file size exceeds threshold.
 	lastSyncedWALOffset int64
+
+	// dbAheadOfSync is set while a checkpoint that ran without a write
+	// barrier (any mode but PASSIVE) may have copied WAL frames into the
+	// database file that have not been synced yet. Snapshots read the
+	// database file and rely on it not being ahead of the synced position,
+	// so they are refused until the flag is cleared.
+	dbAheadOfSync bool
 }
 
 type syncExecutor struct {
@@ -1301,6 +1308,13 @@ func (db *DB) syncLocked(ctx context.Context, maxSyncWALBytes int64) (result syn
 	db.setSyncDiagPhase(diagPhaseVerifyAndSync, func(s *diagState) {
 		s.txID = exec.pos.TXID + 1
 	})
+	if exec.state.dbAheadOfSync && db.chkMu.TryLock() {
+		err := db.syncUnderWriteLock(ctx, exec)
+		db.chkMu.Unlock()
+		if err != nil && !isSQLiteBusyError(err) {
+			return result, fmt.Errorf("cannot copy wal after checkpoint: %w", err)
+		}
+	}
 	result, err = db.verifyAndSyncWithExecutor(ctx, false, exec, maxSyncWALBytes)
 	if err != nil {
 		return result, err
@@ -2571,6 +2585,9 @@ func (db *DB) checkpointWithExecutor(ctx context.Context, mode string, exec *syn
 			s.checkpointMode = mode
 			s.lastSyncedWALOffset = exec.state.lastSyncedWALOffset
 		})
+	if mode != CheckpointModePassive {
+		exec.state.dbAheadOfSync = true
+	}
 	walFrameN, err := db.execCheckpoint(ctx, mode)
 	if err != nil {
 		return false, err
@@ -2597,6 +2614,16 @@ func (db *DB) checkpointWithExecutor(ctx context.Context, mode string, exec *syn
 	if err != nil {
 		return false, err
 	} else if bytes.Equal(hdr, other) {
+		// Only PASSIVE checkpoints run behind a write barrier. In the other
+		// modes commits that landed after the copy above may already have been
+		// checkpointed into the database file. Copy them while holding the
+		// write lock so the database file never runs ahead of the synced
+		// position, which snapshots rely on.
+		if mode != CheckpointModePassive {
+			if err := db.syncUnderWriteLock(ctx, exec); err != nil {
+				return false, fmt.Errorf("cannot copy wal after checkpoint: %w", err)
+			}
+		}
 		exec.state.syncedSinceCheckpoint = false
 		return false, nil
 	}
@@ -2625,6 +2652,7 @@ func (db *DB) checkpointWithExecutor(ctx context.Context, mode string, exec *syn
 		}
 		exec.applySyncResult(result)
 		exec.state.syncedSinceCheckpoint = false
+		exec.state.dbAheadOfSync = false
 		return true, nil
 	}
 
@@ -2675,7 +2703,35 @@ func (db *DB) checkpointWithExecutor(ctx context.Context, mode string, exec *syn
 	}
 
 	exec.state.syncedSinceCheckpoint = false
+	exec.state.dbAheadOfSync = false
 	return true, nil
+}
+
+// syncUnderWriteLock copies the WAL up to its end while holding the SQLite
+// write lock so no commit can land during the copy. On success the database
+// file cannot be ahead of the synced position.
+func (db *DB) syncUnderWriteLock(ctx context.Context, exec *syncExecutor) error {
+	tx, err := db.db.BeginTx(ctx, nil)
+	if err != nil {
+		return fmt.Errorf("begin: %w", err)
+	}
+	defer func() { _ = rollback(tx) }()
+
+	// Promote to a write transaction; the insert is rolled back below.
+	if _, err := tx.ExecContext(ctx, `INSERT INTO _litestream_lock (id) VALUES (1);`); err != nil {
+		return fmt.Errorf("_litestream_lock: %w", err)
+	}
+
+	result, err := db.verifyAndSyncWithExecutor(ctx, true, exec, 0)
+	if err != nil {
+		return err
+	}
+	exec.applySyncResult(result)
+	if err := rollback(tx); err != nil {
+		return err
+	}
+	exec.state.dbAheadOfSync = false
+	return nil
 }
 
 // execCheckpoint issues a wal_checkpoint PRAGMA in the given mode and returns
@@ -2781,6 +2837,12 @@ func (db *DB) snapshotPosition(ctx context.Context) (*snapshotReadPosition, erro
 	}
 	if err != nil {
 		return nil, fmt.Errorf("pos: %w", err)
+	}
+
+	// db.syncState is read without db.mu because every writer mutates it
+	// while holding execSem, which is held here.
+	if db.syncState.dbAheadOfSync {
+		return nil, &DBNotReadyError{Reason: "database file is ahead of the synced position"}
 	}
 
 	walEndOffset, err := db.snapshotWALEndOffset(pos)
